@@ -308,6 +308,33 @@ int main(int argc, char** argv)
                         ok = ok && g == 1;
                     }
                     what = "gboost predict, pool " + std::to_string(d[2] % 3);
+
+                    // a fitted linear model shared the same way: calls that fit in one batch (run inline by the caller) and
+                    // calls split into several batches over the dataset's pool
+                    auto lin = linear_t::all().get(d[2] % 2 == 0 ? "ridge" : "ordinary");
+                    lin->parameter("linear::batch") = d[2] % 3 == 0 ? 100 : 10;
+                    lin->fit(dataset, all, *loss, params);
+                    const tensor4d_t q0      = lin->predict(dataset, all);
+                    const linear_t&  sharedl = *lin;
+                    std::vector<int> goodl(static_cast<size_t>(K), 0);
+                    in_threads(K,
+                               [&](const int t)
+                               {
+                                   bool same = true;
+                                   for (int rep = 0; rep < 5; ++rep)
+                                   {
+                                       same = same && same_tensor(sharedl.predict(dataset, all), q0);
+                                   }
+                                   goodl[static_cast<size_t>(t)] = same ? 1 : 0;
+                               });
+                    for (const auto g : goodl)
+                    {
+                        if (g != 1)
+                        {
+                            ok   = false;
+                            what = "linear predict (batch " + std::to_string(d[2] % 3 == 0 ? 100 : 10) + ") on a shared fitted model";
+                        }
+                    }
                 }
             }
             r.evaluations += 1;
